@@ -90,4 +90,15 @@ theorem evaluator_forwarder_hands_over_each_request_once :
        "case request := <-ec.App.EvaluatorChannel", "assign request := <-ec.App.EvaluatorChannel",
        "send channel <- request", "case <-ec.quitChannel", "return", "return"] := by decide
 
+/-- … and on the way to storage nothing answers in storage's place: the storage coordinator's forwarder
+    (regenerated from storage/coordinator.go) takes a request and hands it to the module, blocking until
+    it is taken — it never gives up on a busy module and never closes a reply channel, which the
+    evaluator would read as "no such group" and cache. -/
+theorem storage_forwarder_never_answers_for_storage :
+    Burrow.Generated.storageForwarderSkeleton =
+      ["call sc.running.Add(1)", "defer sc.running.Done()", "decl var channel chan *protocol.StorageRequest",
+       "loop", "assign channel = module.(Module).GetCommunicationChannel()", "loop",
+       "case request := <-sc.App.StorageChannel", "assign request := <-sc.App.StorageChannel",
+       "send channel <- request", "case <-sc.quitChannel", "return"] := by decide
+
 end Burrow.Props.C05
